@@ -414,7 +414,7 @@ class ThumbMachine(A64Machine):
             if not (isinstance(r1, tuple) and r1[0] == 'sp'):
                 raise Unsupported('the value handed to the final reduction is not on the stack at %#x' % ins.addr)
             V = [st.mem.get(('sp', r1[1] + 4 * i)) for i in range(12)]
-            st.call = dict(res=r0, V=V, p=r2, addr=ins.addr, sp=st.regs.get('sp'))
+            st.call = dict(res=r0, V=V, p=r2, addr=ins.addr, sp=st.regs.get('sp'), V_ptr=r1)
             for r in ('r0', 'r1', 'r2', 'r3', 'r12', 'lr'):
                 st.regs[r] = ('clobbered', r)
             st.cf = st.zf = None
@@ -761,4 +761,9 @@ def analyse_thumb(insns, order, entry, name):
     for v in outs:
         used |= m.world.expand(v).atoms()
     R.dead_caller_reads = {acc.off for acc in R.accesses if acc.base == 'sp' and acc.kind == 'R' and acc.off >= R.stack_arg_bytes and ('STK_%d' % acc.off) not in used}
+    R.notes = []
+    if st.call and isinstance(st.call.get('V_ptr'), tuple) and st.call['V_ptr'][0] == 'sp':
+        off = st.call['V_ptr'][1]
+        R.notes.append('%s hands the C++ reduce trampoline a value at entry_sp%+d, i.e. %d modulo 8 for the 8-byte aligned stack pointer of a public '
+                       'entry (AAPCS); the trampoline reads it as a BigInt<384>' % (name, off, off % 8))
     return R
